@@ -16,10 +16,12 @@ from harness.props import in_util
 
 PROP = "C11"
 LEAN_MODULES = ["LunaVerif.Props.C11", "LunaVerif.Lemmas.C11Host", "LunaVerif.Lemmas.C11Refine",
-                "LunaVerif.Lemmas.C11Ends"]
+                "LunaVerif.Lemmas.C11Ends", "LunaVerif.Lemmas.C11EndsSpec"]
 DRIVER = "Driver/C11.lean"
 REQUIRED_THEOREMS = ["in_exactly_once", "transfer_ends_short_or_zlp", "host_data_is_prefix",
                      "at_most_two_packets_buffered", "J_reachable", "K_reachable",
+                     "endsOk_packet", "endsOk_zlp_follows", "endsOk_zlp_only_when_due",
+                     "host_sees_zlp_after_full_last_packet", "last_byte_ends_its_packet", "flush_sends_partial",
                      "inv_reachable", "packet_len_le_mps", "retry_repeats_pid_and_payload", "nak_when_no_packet",
                      "send_packet_streams_buffer", "read_buffer_frozen", "pid_flips_only_with_new_packet"]
 RULE = ("cases = max_packet_size in {1,2,3,8,64,512} x mode; modes: 'host' (legal host + producer with transfers of "
@@ -45,7 +47,8 @@ PARTIAL = ""
 
 NAMES_IN = ["active", "is_in", "ready_for_response", "new_token", "ack", "s_valid", "s_payload", "s_last", "flush",
             "discard", "generate_zlps", "reset_sequence", "start_with_data1", "tx_ready"]
-NAMES_OUT = ["s_ready", "valid", "first", "last", "payload", "data_pid", "nak", "buffer_toggle"]
+NAMES_OUT = ["s_ready", "valid", "first", "last", "payload", "data_pid", "nak", "buffer_toggle",
+             "obs_packets", "obs_bytes", "obs_hash", "obs_produced"]
 
 
 def gen_cases(tier, rng):
@@ -192,8 +195,20 @@ class Agent:
 
 
 def monitor(mps, mode, stim, rows):
-    """Host-view statement of C11 on the real trace (modes host / zlp0; reduced checks otherwise)."""
+    """Host-view statement of C11 on the real trace: (failures, tags).  (Also used by C29.)"""
+    fails, tags, _ = monitor_digest(mps, mode, stim, rows)
+    return fails, tags
+
+
+def monitor_digest(mps, mode, stim, rows):
+    """Host-view statement of C11 on the real trace (modes host / zlp0; reduced checks otherwise).
+    Returns (failures, tags, digest): digest[t] = [packets kept, bytes kept, rolling hash of the kept packets,
+    bytes produced] after cycle t as THIS monitor sees them on the real gateware (None once a reset_sequence /
+    discard was seen or the monitor stopped) -- compared with the digest of the Lean observer (the specification
+    side of in_exactly_once / transfer_ends_short_or_zlp, lean/LunaVerif/Lemmas/C11Host.lean) by the framework."""
     fails, tags = [], set()
+    digest = []
+    khash = 0
 
     def fail(t, sig, what):
         if not fails:
@@ -219,7 +234,7 @@ def monitor(mps, mode, stim, rows):
         intok = bool(active and is_in and rfr)
         if discard:
             tags.add("env:discard")
-            return fails, sorted(tags)        # after a discard nothing is promised about delivery
+            return fails, sorted(tags), digest        # after a discard nothing is promised about delivery
         flush_seen = flush_seen or bool(flush)
         # ---- packets as the host sees them
         done = None
@@ -268,6 +283,9 @@ def monitor(mps, mode, stim, rows):
                 kept.extend(done)
                 kept_pkts.append(done)
                 last_kept_pid = pid
+                for b in done:
+                    khash = (khash * 257 + b + 1) % 1000003
+                khash = khash * 257 % 1000003
             prev_pkt = [pid, done, False]
             await_ack = True
             tags.add("packet-len=mps" if len(done) == mps else ("packet-short" if done else "packet-zlp"))
@@ -324,6 +342,7 @@ def monitor(mps, mode, stim, rows):
             produced.append((sp, sl))
         if not resets and len(produced) - len(kept) > 2 * mps + (mps if cur is not None or await_ack else 0):
             fail(t, "overbuffered", "%d bytes accepted but not delivered (two buffers of %d)" % (len(produced) - len(kept), mps))
+        digest.append(None if resets else [len(kept_pkts), len(kept), khash, len(produced)])
         if fails:
             break
     # ---- transfer boundaries as the host sees them (ZLP generation on, no flush, no reset)
@@ -350,7 +369,12 @@ def monitor(mps, mode, stim, rows):
         tags.add("transfers>=2" if len(host_tr) >= 2 else "transfers<2")
     if flush_seen:
         tags.add("flush")
-    return fails, sorted(tags)
+    return fails, sorted(tags), digest
+
+
+def digest_row(digest, t):
+    d = digest[t] if t < len(digest) else None
+    return list(d) if d is not None else [None, None, None, None]
 
 
 def run_case(desc):
@@ -366,12 +390,14 @@ def run_case(desc):
             d.packet_stream.payload, d.data_pid, d.handshakes_out.nak, d.buffer_toggle]
     stim, rows = in_util.run(d, ins, outs, desc, lambda: Agent(Rng(desc["seed"]), mps, mode), desc.get("cycles", 800))
     if mode == "chaos":
-        fails, tags = [], []
+        fails, tags, digest = [], [], []
     else:
-        fails, tags = monitor(mps, mode, stim, rows)
+        fails, tags, digest = monitor_digest(mps, mode, stim, rows)
     tags += ["mode=" + mode, "mps=%d" % mps]
-    outputs = [[o[0], o[1], o[2], o[3], (o[4] if o[1] else None), o[5], o[6], o[7]]
-               for o in rows]
+    if any(d is not None for d in digest):
+        tags.append("observer-digest-compared")
+    outputs = [[o[0], o[1], o[2], o[3], (o[4] if o[1] else None), o[5], o[6], o[7]] + digest_row(digest, t)
+               for t, o in enumerate(rows)]
     return Case([mps], stim, outputs, fails, tags, desc, NAMES_IN, NAMES_OUT)
 
 
@@ -425,8 +451,9 @@ def run_ep_case(desc):
         rs = int(bool(en and direction and number == ep))
         mstim.append([int(endpoint == ep), is_in, rfr, nt, ack, v, b, l, flush, disc, 1, rs, 0, ready,
                       endpoint, en, direction, number])
-    fails, tags = monitor(mps, "ep", [r[:14] for r in mstim], [tuple(o) + (0,) for o in rows])
+    fails, tags, digest = monitor_digest(mps, "ep", [r[:14] for r in mstim], [tuple(o) + (0,) for o in rows])
     tags += ["mode=ep", "mps=%d" % mps]
-    outputs = [[o[0], o[1], o[2], o[3], (o[4] if o[1] else None), o[5], o[6], None] for o in rows]
+    outputs = [[o[0], o[1], o[2], o[3], (o[4] if o[1] else None), o[5], o[6], None] + digest_row(digest, t)
+               for t, o in enumerate(rows)]
     return Case([mps], mstim, outputs, fails, tags, desc,
                 NAMES_IN + ["(endpoint)", "(halt_enable)", "(halt_direction)", "(halt_number)"], NAMES_OUT)
